@@ -409,6 +409,7 @@ func Explore(cfg *SchedConfig) *SchedResult {
 		}
 		e := RunOnce(cfg, prefix, seen)
 		res.Execs++
+		Progress()
 		res.Transitions += len(e.Points) - len(prefix)
 		if len(e.Points) > res.MaxPoints {
 			res.MaxPoints = len(e.Points)
